@@ -9,6 +9,12 @@ Line protocol of component `tracing` (C17).
     tracing rec <thread> <span#> <fields>                       → <map>
     tracing enter <thread> <span#>   /  exit <thread> <span#>   → <current span# of the thread | ~>
     tracing emit <thread> <name> <labels>                       → <labels the inner recorder saw>
+    tracing close <thread> <span#>                              → closed     (last handle dropped; bad-op when the span
+                                                                  is on a stack of threads 0..15 or has a live child)
+    tracing nolayer                                             → ok         (the subscriber has no MetricsLayer:
+                                                                  spans answer `no-labels`, keys pass unchanged)
+
+`filter` starts a fresh subscriber; the object pool is process-wide and carries over (`poolAfterDrop`).
 
 fields = list of `name:value`, value = `s<hex>` | `b0` | `b1` | `i<int>` | `u<nat>` | `d<hex rendered>` | `e`.
 A custom filter admits a label iff (sum of the code points of metric name, key and value) % mod ≠ rem.
@@ -18,7 +24,16 @@ open MetricsVerif.Driver MetricsVerif.Tracing
 
 structure DSt where
   filter : Filter
-  st : State := {}
+  p : PState := {}
+  hasLayer : Bool := true
+
+/-- the pool a new subscriber finds: what the previous one (with a layer) left behind -/
+def carry (d : Option DSt) : List FMap :=
+  match d with
+  | some d => if d.hasLayer then poolAfterDrop d.p else d.p.pool
+  | none => []
+
+def live (p : PState) (id : Nat) : Bool := id < p.base.spans.length && !p.closed.contains id
 
 def valueTok (s : String) : Option Value :=
   match s.toList with
@@ -46,63 +61,79 @@ def codeSum (s : Str) : Nat := (s.map Char.toNat).sum
 
 def customPred (m r : Nat) (name k v : Str) : Bool := (codeSum name + codeSum k + codeSum v) % m != r
 
-def parentTok (s : State) (tok : String) : Option Parent :=
+def parentTok (p : PState) (tok : String) : Option Parent :=
   if tok == "r" then some .root
   else if tok == "c" then some .contextual
   else do
     let i ← tok.toNat?
-    if i < s.spans.length then some (.explicit i) else none
+    if live p i then some (.explicit i) else none
 
 def handle (d : Option DSt) (args : List String) : Option (Option DSt × String) :=
   match args with
-  | ["filter", "all"] => some (some { filter := .includeAll }, "ok")
+  | ["filter", "all"] => some (some { filter := .includeAll, p := { pool := carry d } }, "ok")
   | ["filter", "allow", names] => do
     let names ← listTok unhexChars names
-    pure (some { filter := .allowlist names }, "ok")
+    pure (some { filter := .allowlist names, p := { pool := carry d } }, "ok")
   | ["filter", "custom", m, r] => do
     let m ← m.toNat?
     let r ← r.toNat?
     if m == 0 then none else
-    pure (some { filter := .custom (customPred m r) }, "ok")
+    pure (some { filter := .custom (customPred m r), p := { pool := carry d } }, "ok")
+  | ["nolayer"] => do
+    let d ← d
+    if d.p.base.spans.isEmpty then pure (some { d with hasLayer := false }, "ok") else none
   | op :: rest => do
     let d ← d
-    let s := d.st
+    let p := d.p
+    let n := p.base.spans.length
     match op, rest with
-    | "new", [t, p, fields] => do
+    | "new", [t, par, fields] => do
       let t ← t.toNat?
-      let p ← parentTok s p
+      let par ← parentTok p par
       let fields ← fieldsTok fields
-      let s' := step s (.newSpan t p fields)
-      let m ← s'.spans[s.spans.length]?
-      pure (some { d with st := s' }, s!"{s.spans.length} {showMap m}")
+      if d.hasLayer then
+        let p' := pstep p (.base (.newSpan t par fields))
+        let m ← p'.base.spans[n]?
+        pure (some { d with p := p' }, s!"{n} {showMap m}")
+      else
+        pure (some { d with p := pNewSpanNoLayer p t par }, s!"{n} no-labels")
     | "rec", [t, id, fields] => do
       let t ← t.toNat?
       let id ← id.toNat?
       let fields ← fieldsTok fields
-      if id < s.spans.length then
-        let s' := step s (.record t id fields)
-        let m ← s'.spans[id]?
-        pure (some { d with st := s' }, showMap m)
+      if live p id then
+        if d.hasLayer then
+          let p' := pstep p (.base (.record t id fields))
+          let m ← p'.base.spans[id]?
+          pure (some { d with p := p' }, showMap m)
+        else pure (some d, "no-labels")
       else none
     | "enter", [t, id] => do
       let t ← t.toNat?
       let id ← id.toNat?
-      if id < s.spans.length then
-        let s' := step s (.enter t id)
-        pure (some { d with st := s' }, showCur (current s' t))
+      if live p id then
+        let p' := pstep p (.base (.enter t id))
+        pure (some { d with p := p' }, showCur (current p'.base t))
       else none
     | "exit", [t, id] => do
       let t ← t.toNat?
       let id ← id.toNat?
-      if id < s.spans.length then
-        let s' := step s (.exit t id)
-        pure (some { d with st := s' }, showCur (current s' t))
+      if live p id then
+        let p' := pstep p (.base (.exit t id))
+        pure (some { d with p := p' }, showCur (current p'.base t))
+      else none
+    | "close", [t, id] => do
+      let _ ← t.toNat?
+      let id ← id.toNat?
+      if live p id && !pinned p 16 id then
+        if d.hasLayer then pure (some { d with p := pstep p (.close id) }, "closed")
+        else pure (some { d with p := { p with closed := id :: p.closed } }, "closed")
       else none
     | "emit", [t, name, labels] => do
       let t ← t.toNat?
       let name ← unhexChars name
       let labels ← labelsTok labels
-      pure (some d, showMap (emit s d.filter t name labels))
+      pure (some d, showMap (emitCfg d.hasLayer p.base d.filter t name labels))
     | _, _ => none
   | _ => none
 
